@@ -165,7 +165,7 @@ func checkC06(c *Ctx, r *Report) {
 		evs, _ := extractEvents(c, fn, nil)
 		got, _ := mergedShape(evs, "wire", nil, nil)
 		lens, _ := mergedShape(evs, "len", nil, nil)
-		ok := strings.Join(got["pre[27]"], "|") == "lin(len(r.Username))" && strings.Contains(strings.Join(lens["pre"], "|"), "len(r.Username) +28")
+		ok := strings.Join(got["pre[27]"], "|") == "lin(len(f:Username))" && strings.Contains(strings.Join(lens["pre"], "|"), "len(f:Username) +28")
 		name := false
 		for k, v := range got {
 			if strings.HasPrefix(k, "pre[28:") && strings.Contains(strings.Join(v, "|"), "copy(f:Username)") {
